@@ -706,6 +706,16 @@ func (fr *Frame) enterLoop(b *ssa.BasicBlock, li *loopInfo, st *State, reach *Te
 		phiIn[phi] = t
 	}
 	invs := fr.invariants(li)
+	if fr.top && len(vc.ct.Each[li.ord]) > 0 {
+		// per-iteration clauses claim something about every index: the loop must be a complete range loop
+		ok, why := rangeComplete(li)
+		ob := &Obligation{Name: vc.fnName() + fmt.Sprintf("/loop%d/range-complete", li.ord), Fn: vc.fnName(), Kind: "loop-shape", Props: eachProps(vc.ct.Each[li.ord]), Backend: "ssa-shape",
+			Clause: "the loop is a range loop over the whole slice: index from 0 to len-1 in steps of 1, left only when the index reaches len (no break / return inside)", Pos: vc.ct.Source, Result: "unsat"}
+		if !ok {
+			ob.Result, ob.Raw = "sat", why
+		}
+		vc.obs = append(vc.obs, ob)
+	}
 	if fr.top {
 		for _, c := range invs {
 			goal := fr.evalInvariant(c, b, phiIn, st)
@@ -763,10 +773,85 @@ func (fr *Frame) enterLoop(b *ssa.BasicBlock, li *loopInfo, st *State, reach *Te
 	for _, c := range invs {
 		vc.assume(Implies(reach, fr.evalInvariant(c, b, phiH, st2)))
 	}
-	if !fr.top && len(invs) == 0 {
-		unsupported("inlined function %s has a loop without invariant", shortFnName(fr.fn))
-	}
+	// a loop of an inlined helper without invariants is summarised by the havoc of what it modifies (sound, imprecise)
 	return st2, reach
+}
+
+func eachProps(cs []*Clause) []string {
+	seen := map[string]bool{}
+	var out []string
+	for _, c := range cs {
+		for _, p := range c.Props {
+			if !seen[p] {
+				seen[p] = true
+				out = append(out, p)
+			}
+		}
+	}
+	return out
+}
+
+// rangeComplete checks the SSA shape of a `for i, x := range slice` loop that is never left early.
+func rangeComplete(li *loopInfo) (bool, string) {
+	h := li.header
+	var idx *ssa.Phi
+	for _, in := range h.Instrs {
+		if phi, ok := in.(*ssa.Phi); ok && phi.Comment == "rangeindex" {
+			idx = phi
+		}
+	}
+	if idx == nil {
+		return false, "the loop has no range index (it is not a `for i := range s` loop)"
+	}
+	var inc *ssa.BinOp
+	for i, e := range idx.Edges {
+		pred := h.Preds[i]
+		if isBackEdge(pred, h) {
+			bo, ok := e.(*ssa.BinOp)
+			if !ok || bo.Op != token.ADD || bo.X != idx {
+				return false, "the index is not incremented by one on every back edge"
+			}
+			if c, ok := bo.Y.(*ssa.Const); !ok || c.Int64() != 1 {
+				return false, "the index step is not 1"
+			}
+			inc = bo
+		} else {
+			if c, ok := e.(*ssa.Const); !ok || c.Int64() != -1 {
+				return false, "the index does not start at 0"
+			}
+		}
+	}
+	iff, ok := h.Instrs[len(h.Instrs)-1].(*ssa.If)
+	if !ok {
+		return false, "the loop header does not end in the bound test"
+	}
+	cmp, ok := iff.Cond.(*ssa.BinOp)
+	if !ok || cmp.Op != token.LSS || cmp.X != inc {
+		return false, "the loop condition is not index < len"
+	}
+	call, ok := cmp.Y.(*ssa.Call)
+	if !ok {
+		return false, "the loop bound is not len(slice)"
+	}
+	if b, ok := call.Call.Value.(*ssa.Builtin); !ok || b.Name() != "len" {
+		return false, "the loop bound is not len(slice)"
+	}
+	for b := range li.body {
+		if b == h {
+			continue
+		}
+		for _, s := range b.Succs {
+			if !li.body[s] {
+				return false, fmt.Sprintf("the loop is left early from block %d (break or return inside the loop)", b.Index)
+			}
+		}
+		if len(b.Succs) == 0 {
+			if _, isRet := b.Instrs[len(b.Instrs)-1].(*ssa.Return); isRet {
+				return false, fmt.Sprintf("return inside the loop (block %d)", b.Index)
+			}
+		}
+	}
+	return true, ""
 }
 
 // rangeLimit finds the len value the rangeindex phi is compared with.
@@ -821,13 +906,37 @@ func (fr *Frame) checkBackEdges(p *ssa.BasicBlock) {
 			}
 			phiB[phi] = fr.val(phi.Edges[predIndex(h, p)])
 		}
+		suffix := ""
+		if n := countBackEdges(h); n > 1 {
+			suffix = fmt.Sprintf("@b%d", backEdgeOrdinal(h, p))
+		}
 		for _, c := range fr.invariants(li) {
 			goal := fr.evalInvariant(c, h, phiB, fr.out[p])
-			suffix := ""
-			if n := countBackEdges(h); n > 1 {
-				suffix = fmt.Sprintf("@b%d", backEdgeOrdinal(h, p))
-			}
 			vc.oblige(fmt.Sprintf("loop%d/preserve:%s%s", li.ord, clauseLabel(c), suffix), "inv-preserve", c.Props, c.Line, guard, goal, c.Expr)
+		}
+		// per-iteration clauses: evaluated in the state at the end of this iteration, over the values of this iteration
+		for _, c := range vc.ct.Each[li.ord] {
+			env := fr.env0.child()
+			env.st = fr.out[p]
+			env.where = c.Line
+			env.old = fr.env0
+			term := p.Instrs[len(p.Instrs)-1]
+			env.resolveAddr = fr.allocRef
+			env.resolve = func(name string) (*Term, bool) {
+				if name == "_idx" {
+					for phi, t := range phiB {
+						if phi.Comment == "rangeindex" {
+							return t, true // index of the iteration that just finished
+						}
+					}
+				}
+				return fr.resolveIter(name, term, fr.out[p])
+			}
+			t, err := env.Parse(c.Expr)
+			if err != nil {
+				panic(&exprError{err.Error()})
+			}
+			vc.obligeNoAssume(fmt.Sprintf("loop%d/each:%s%s", li.ord, clauseLabel(c), suffix), "each-iteration", c.Props, c.Line, guard, t, c.Expr)
 		}
 	}
 }
@@ -892,6 +1001,7 @@ func (fr *Frame) evalInvariant(c *Clause, h *ssa.BasicBlock, phis map[*ssa.Phi]*
 	env.resolve = func(name string) (*Term, bool) {
 		return fr.resolveLocal(name, h, phis, st)
 	}
+	env.resolveAddr = fr.allocRef
 	t, err := env.Parse(c.Expr)
 	if err != nil {
 		panic(&exprError{err.Error()})
@@ -1041,8 +1151,23 @@ func (fr *Frame) mergeReturns() (*Term, []*Term, *State) {
 	return guard, results, st
 }
 
+// allocRef resolves &name to the reference of the address-taken local `name`.
+func (fr *Frame) allocRef(name string) (*Term, bool) {
+	for _, b := range fr.fn.Blocks {
+		for _, in := range b.Instrs {
+			if a, ok := in.(*ssa.Alloc); ok && a.Comment == name {
+				if ref, ok := fr.vals[a]; ok {
+					return ref, true
+				}
+			}
+		}
+	}
+	return nil, false
+}
+
 func (vc *FnVC) resultEnv(fr *Frame, results []*Term, st *State) *Env {
 	env := fr.env0.child()
+	env.resolveAddr = fr.allocRef
 	env.st = st
 	env.old = fr.env0
 	sig := fr.fn.Signature
@@ -1086,6 +1211,19 @@ func (vc *FnVC) emitPost(fr *Frame, guard *Term, results []*Term, st *State) {
 			label = fmt.Sprintf("%d", i+1)
 		}
 		vc.obligeNoAssume("post:"+label, "post", c.Props, c.Line, guard, t, c.Expr)
+	}
+	for _, d := range vc.ct.Defines {
+		e2 := *env
+		e2.where = d.Line
+		t, err := e2.Parse(d.Expr)
+		if err != nil {
+			panic(&exprError{err.Error()})
+		}
+		label := d.Label
+		if label == "" {
+			label = d.Var
+		}
+		vc.obligeNoAssume("defines:"+label, "post", d.Props, d.Line, guard, t, d.Var+" := "+d.Expr)
 	}
 	vc.emitFrame(fr, guard, st)
 	// "sets G := e" of an own contract is also a postcondition: final G equals e over the entry state
@@ -1141,6 +1279,38 @@ func (vc *FnVC) obligeNoAssume(name, kind string, props []string, pos string, gu
 	n := len(vc.log)
 	vc.oblige(name, kind, props, pos, guard, goal, clause)
 	vc.log = vc.log[:n]
+}
+
+// resolveIter maps a source-level local name to its value in the iteration that ends at latch terminator `at`:
+// the debug reference with the greatest source position among those whose value is defined (per-iteration values included).
+func (fr *Frame) resolveIter(name string, at ssa.Instruction, st *State) (*Term, bool) {
+	var best ssa.Value
+	var bestPos token.Pos = -1
+	for _, b := range fr.fn.Blocks {
+		for _, in := range b.Instrs {
+			d, ok := in.(*ssa.DebugRef)
+			if !ok || d.IsAddr {
+				continue
+			}
+			id, ok := d.Expr.(*ast.Ident)
+			if !ok || id.Name != name {
+				continue
+			}
+			if _, have := fr.vals[d.X]; !have {
+				if _, isConst := d.X.(*ssa.Const); !isConst {
+					continue
+				}
+			}
+			// the defining occurrence (declaration) is the one we want: smallest position
+			if p := id.Pos(); bestPos < 0 || p < bestPos {
+				best, bestPos = d.X, p
+			}
+		}
+	}
+	if best != nil {
+		return fr.val(best), true
+	}
+	return fr.resolveAt(name, at, st)
 }
 
 // resolveAt maps a source-level local variable name to its value at instruction `at`: the latest debug
